@@ -235,40 +235,73 @@ def r2_slots(ctx):
 
 
 def r3_stale(ctx):
+    """Per-binding tables are filled in loops over bind_info.  A variable
+    read in such a loop must be (re)bound from the current binding inside
+    that loop; one whose value can only come from an *earlier* loop over the
+    bindings is stale: every binding then sees the last binding's value."""
     f = ctx.func(T + "_bufferTraffic")
-    names = {"tensor", "rank", "type_"}
+
+    def over_bindings(lp):
+        it = lp.iter
+        if isinstance(it, ast.Call) and text(it.func) == "enumerate" and it.args:
+            it = it.args[0]
+        return text(it) == blist
+    # the list of bindings: what the policy's pre_sim_hook receives
+    blist = None
+    for c in f.own_nodes():
+        if isinstance(c, ast.Call) and text(c.func) == "pre_sim_hook" and c.args:
+            blist = text(c.args[0])
+    ctx.require(blist, "C17.R3: the binding list (argument of pre_sim_hook) was "
+                "not found in _bufferTraffic")
+    loops = [lp for lp in f.own_nodes() if isinstance(lp, ast.For) and over_bindings(lp)]
+    all_loops = [lp for lp in f.own_nodes() if isinstance(lp, (ast.For, ast.While))]
+    # names bound per binding somewhere (loop targets / assignments in a loop)
+    per_binding = set()
+    for lp in loops:
+        for n_ in ast.walk(lp.target):
+            if isinstance(n_, ast.Name):
+                per_binding.add(n_.id)
+        for st in _walk(lp.body):
+            if isinstance(st, ast.Assign):
+                for t in st.targets:
+                    for n_ in ast.walk(t):
+                        if isinstance(n_, ast.Name) and isinstance(n_.ctx, ast.Store):
+                            per_binding.add(n_.id)
     n = 0
-    for lp in f.own_nodes():
-        if not isinstance(lp, ast.For):
-            continue
-        it = text(lp.iter).replace(" ", "")
-        if it not in ("bind_info", "enumerate(bind_info)"):
-            continue
+    for lp in loops:
         for u in _walk(lp.body):
-            if isinstance(u, ast.Name) and isinstance(u.ctx, ast.Load) and \
-                    u.id in names:
-                n += 1
-                facts, is_param = ctx.ty.facts_at(f, u.id, u)
-                inside = [fa for fa in facts if fa.stmt is not None and
-                          (is_within(fa.stmt, lp))]
-                outside = [fa for fa in facts if fa not in inside]
-                if inside and not outside:
-                    ctx.ok("C17.R3", f, u, "`%s` is bound from the current "
-                           "binding inside this loop" % u.id,
-                           text_="%s: %s in %s" % (construct(lp), u.id,
-                                                   construct(enclosing_stmt(u))))
-                else:
-                    src = outside[0].stmt if outside else None
-                    ctx.bad("C17.R3", f, u,
-                            "`%s` is read inside `%s` but its value comes from "
-                            "`%s`, an earlier loop that has already finished: "
-                            "every binding gets the value of the *last* binding "
-                            "(wrong table entry whenever two bindings differ "
-                            "in tensor or rank)"
-                            % (u.id, construct(lp),
-                               construct(src) if src is not None else "nowhere"),
-                            text_="%s: stale %s" % (construct(lp), u.id))
-    ctx.floor("C17.R3", n, 6, "reads of tensor/rank/type_ in binding loops")
+            if not (isinstance(u, ast.Name) and isinstance(u.ctx, ast.Load)
+                    and u.id in per_binding):
+                continue
+            facts, is_param = ctx.ty.facts_at(f, u.id, u)
+            if is_param or not facts:
+                continue
+            inside = [fa for fa in facts if fa.stmt is not None and
+                      (is_within(fa.stmt, lp) or fa.stmt is lp)]
+            outside = [fa for fa in facts if fa not in inside]
+            stale = [fa for fa in outside if fa.stmt is not None and any(
+                (is_within(fa.stmt, l2) or fa.stmt is l2) and l2 is not lp
+                and not is_within(lp, l2) for l2 in all_loops)]
+            if not stale and not inside:
+                continue            # a table built before the loops
+            n += 1
+            if inside and not outside:
+                ctx.ok("C17.R3", f, u, "`%s` is bound from the current "
+                       "binding inside this loop" % u.id,
+                       text_="%s: %s in %s" % (construct(lp), u.id,
+                                               construct(enclosing_stmt(u))))
+            elif stale:
+                src = stale[0].stmt
+                ctx.bad("C17.R3", f, u,
+                        "`%s` is read inside `%s` but its value comes from "
+                        "`%s`, an earlier loop that has already finished: "
+                        "every binding gets the value of the *last* binding "
+                        "(wrong table entry whenever two bindings differ "
+                        "in tensor or rank)"
+                        % (u.id, construct(lp),
+                           construct(src) if src is not None else "nowhere"),
+                        text_="%s: stale %s" % (construct(lp), u.id))
+    ctx.floor("C17.R3", n, 6, "reads of per-binding variables in binding loops")
 
 
 def r4_merges(ctx):
